@@ -98,6 +98,9 @@ def first_order(u, rep, name, dtype, timeout, W=3):
         elif name == 'ToPower2': out = u.fo.ToPower(2)(X)
         elif name == 'CenterOn': out = u.fo.CenterOn(mean=mean)(X)
         elif name == 'CenterOnNone': out = u.fo.CenterOn()(X)
+        elif name == 'CenterOnInt': out = u.fo.CenterOn(mean=128)(X)                      # a Python integer (e.g. the ADC mid-scale code)
+        elif name == 'CenterOnIntArr':
+            mean = H.sym_ints('MI', (W,), dtype if _rnp.dtype(dtype).kind != 'f' else 'int16'); out = u.fo.CenterOn(mean=mean)(X)      # an integer array of the traces' dtype
         elif name == 'StandardizeOn': out = u.fo.StandardizeOn(mean=mean, std=std)(X)
         elif name == 'center': out = u.fo.center(X)
         elif name == 'standardize': core.SQRT_ARGS.clear(); out = u.fo.standardize(X)
@@ -122,7 +125,8 @@ def first_order(u, rep, name, dtype, timeout, W=3):
                 x = rv(pre.at(SInt(r), c))
                 if name == 'square' or name == 'ToPower2': e = x * x
                 elif name == 'ToPower3': e = x * x * x
-                elif name == 'CenterOn': e = x - rv(mean.at(c))
+                elif name in ('CenterOn', 'CenterOnIntArr'): e = x - rv(mean.at(c))
+                elif name == 'CenterOnInt': e = x - 128
                 elif name == 'StandardizeOn': e = None
                 elif name in ('center', 'CenterOnNone'): e = x - colmean(c)
                 elif name == 'standardize': e = None
@@ -168,7 +172,7 @@ def main():
     grid = ['uint8', 'int8', 'int16', 'int32', 'uint32', 'int64', 'uint64', 'float32', 'float64'] if a.tier == 'quick' else INTS + ['float32', 'float64']
     for dt in grid:
         units += [('comb', 'Product', 'one', slice(1, 4), None, None, dt), ('comb', 'Difference', 'same', [0, 2, 5], [7, 1, 2], None, dt), ('comb', 'Product', 'two', slice(0, 2), [6, 3, 3], None, dt), ('comb', 'AbsoluteDifference', 'distance', slice(0, 5), None, 2, dt)]
-        for nm in ('square', 'ToPower3', 'CenterOn', 'center'): units.append(('first', nm, dt))
+        for nm in ('square', 'ToPower3', 'CenterOn', 'center') + (('CenterOnInt', 'CenterOnIntArr') if dt in ('uint8', 'int8', 'int16', 'int64', 'float32') else ()): units.append(('first', nm, dt))
     for Lf in ((1, 2, 3, 4, 5) if a.tier == 'quick' else range(1, 9)):
         units.append(('comb', 'Product', 'one', slice(0, Lf), None, None, 'int16'))
         for d in (1, 2, Lf, Lf + 1, Lf + 3): units.append(('comb', 'Difference', 'distance', slice(0, Lf), None, d, 'float32'))
